@@ -103,7 +103,8 @@ def check_fn(chk, cipher, fn, ns, inputs, tabs_idx, tabs, key, exp_key, targets,
                     chk.violation(f'{cipher}.{ns}.{fn}:the hypothesis at the expected key word equals the word of the real cipher state', dict(ctx, property='C07', input_index=i, got=col, expected=targets[i]),
                                   f'{cipher}.{ns}.{fn}: true-key column is not the targeted cipher state')
     # words / guesses selections are slices of the full output
-    sels = [('int', 3, 3), ('list', [0, 5, 2], [0, 5, 2]), ('slice', slice(1, 6, 2), slice(1, 6, 2)), ('array', np.array([7, 0]), [7, 0])]
+    sels = [('int', 3, 3), ('list', [0, 5, 2], [0, 5, 2]), ('slice', slice(1, 6, 2), slice(1, 6, 2)), ('array', np.array([7, 0]), [7, 0]),
+            ('list-contiguous-unordered', [2, 0, 1], [2, 0, 1]), ('array-descending', np.array([5, 4]), [5, 4]), ('array-all-reversed', np.arange(nwords)[::-1].copy(), list(range(nwords))[::-1])]
     for name, wsel, idx in sels:
         out = np.asarray(cls(words=wsel)(**{tag: arr}))
         ref = full[:, :, idx]
